@@ -119,7 +119,8 @@ class Ctx:
             if fnmatch.fnmatchcase(key, k['key']):
                 self.known_hits[k['key']] = self.known_hits.get(k['key'], 0) + 1
                 return
-        if len(self.violations) >= 50:
+        nkey = sum(1 for v in self.violations if v['key'] == key)
+        if nkey >= 3:  # keep at most three replay files per distinct key
             self.violations.append({'key': key, 'desc': desc, 'path': None})
             return
         VIOL_DIR.mkdir(parents=True, exist_ok=True)
@@ -127,7 +128,7 @@ class Ctx:
         path = VIOL_DIR / f'{self.pid}-{digest(body)}.json'
         path.write_text(json.dumps(body, indent=1, default=str))
         self.violations.append({'key': key, 'desc': desc, 'path': str(path)})
-        if len(self.violations) <= 10:
+        if nkey == 0:
             self.log(f'deviation [{key}]: {desc}')
 
     def finish(self) -> int:
